@@ -523,3 +523,95 @@ func waitCondQuick(d time.Duration, cond func() bool) (bool, string) {
 
 var _ = errors.New
 var _ sync.Mutex
+
+// runC18UDPCase: a fault on recvfrom / sendto of a UDP listener must not disturb the engine or other senders.
+func runC18UDPCase(seed uint64, call int, errno unix.Errno, k int64, keys map[string]struct{}) (reached bool) {
+	c := cfg{Net: "udp", Loops: 2, RCap: 65536, WCap: 65536, ReusePort: true}
+	var answers, writeErrs atomic.Int64
+	mon := newMonitor("c18udp", hooks{onDatagram: func(gc gnet.Conn) gnet.Action {
+		b, _ := gc.Next(-1)
+		if _, err := gc.Write(b); err != nil {
+			writeErrs.Add(1)
+		} else {
+			answers.Add(1)
+		}
+		return gnet.None
+	}})
+	mon.udp = true
+	vsys.ResetAlarms()
+	vsys.ResetLedger()
+	vsys.PlanClear()
+	defer vsys.PlanClear()
+	life, err := startServer(c, mon)
+	if err != nil {
+		res.Inconc("c18udp: engine did not start: %v", err)
+		return false
+	}
+	defer func() { _ = life.stop(10 * time.Second) }()
+	srv, _ := net.ResolveUDPAddr("udp", life.dialAddr)
+	viol := func(what, detail string) {
+		res.Violate(fmt.Sprintf("C18 fault=%s:%s %s", vsys.CallName(call), errnoName(errno), what), fmt.Sprintf("udp engine, fault %s:%s@%d: %s", vsys.CallName(call), errnoName(errno), k, detail), map[string]any{"shim_log": vsys.LogTail(30)})
+	}
+	nclients := 4
+	socks := make([]*net.UDPConn, nclients)
+	for i := range socks {
+		socks[i], _ = net.ListenUDP("udp", &net.UDPAddr{IP: net.IPv4(127, 0, 0, 1)})
+		defer socks[i].Close()
+	}
+	roundTrip := func(i int, tag string) bool {
+		msg := []byte(fmt.Sprintf("%s-client%d", tag, i))
+		for try := 0; try < 3; try++ {
+			_, _ = socks[i].WriteToUDP(msg, srv)
+			_ = socks[i].SetReadDeadline(time.Now().Add(time.Second))
+			buf := make([]byte, 256)
+			n, _, err := socks[i].ReadFromUDP(buf)
+			if err == nil && string(buf[:n]) == string(msg) {
+				return true
+			}
+			if err == nil {
+				// an older answer: drain and try again
+				continue
+			}
+		}
+		return false
+	}
+	for i := range socks {
+		if !roundTrip(i, "warm") {
+			res.Inconc("c18udp: warm-up round trip failed")
+			return false
+		}
+	}
+	vsys.PlanAdd(&vsys.Rule{Call: call, FD: -1, Class: "socket", Index: k, Action: vsys.AErrno, Errno: errno, Once: true})
+	for i := range socks {
+		_, _ = socks[i].WriteToUDP([]byte(fmt.Sprintf("hit-client%d", i)), srv)
+	}
+	fired, _ := waitCondQuick(1500*time.Millisecond, func() bool { return vsys.NFired() >= 1 })
+	if !fired {
+		return false
+	}
+	time.Sleep(5 * time.Millisecond)
+	for i := range socks { // drain what came back for the "hit" round (at most one answer may be missing)
+		_ = socks[i].SetReadDeadline(time.Now().Add(20 * time.Millisecond))
+		buf := make([]byte, 256)
+		for {
+			if _, _, err := socks[i].ReadFromUDP(buf); err != nil {
+				break
+			}
+		}
+	}
+	for round := 0; round < 3; round++ {
+		for i := range socks {
+			if !roundTrip(i, fmt.Sprintf("after%d", round)) {
+				select {
+				case <-life.done:
+					viol("engine stopped after a datagram I/O failure", fmt.Sprintf("Run returned (%v)", life.runErr))
+				default:
+					viol("a sender is no longer served after a datagram I/O failure", fmt.Sprintf("client %d gets no answer (answers so far %d, failed writes %d)", i, answers.Load(), writeErrs.Load()))
+				}
+				return true
+			}
+		}
+	}
+	keys[fmt.Sprintf("udp|%s|%s", vsys.CallName(call), errnoName(errno))] = struct{}{}
+	return true
+}
